@@ -27,13 +27,13 @@ def showSendErr : SendErr → String
   | .setContent => "err:setcontent"
   | .sign => "err:sign"
   | .build => "err:build"
-  | .unmodelled => "skip:non-utf8-field"
+  | .unmodelled => "skip:non-utf8-key-id-or-signature-text"
 
 def showRefusal : Refusal → String
   | .badRequest => "err:400"
   | .unauthorized => "err:401"
   | .internal => "err:500"
-  | .unmodelled => "skip:non-utf8-field"
+  | .unmodelled => "skip:non-utf8-key-id-or-signature-text"
 
 /-- canonical content as the harness prints it -/
 def showContent (c : Option Bytes) : String :=
@@ -47,13 +47,6 @@ def showContent (c : Option Bytes) : String :=
 
 def showOk (method uri origin dest : Bytes) (content : Option Bytes) : String :=
   "ok:" ++ hex method ++ "," ++ hex uri ++ "," ++ hex origin ++ "," ++ hex dest ++ "," ++ showContent content
-
-/-- inside C01's domain: no duplicate keys, well-formed Unicode -/
-def inJsonDomain (raw : Bytes) : Bool :=
-  if !utf8Valid raw then true else      -- refused before any JSON reading (readHTTPRequest)
-  match parse raw with
-  | some p => p.noDupKeys && p.wellFormed
-  | none => true
 
 def wallclock : Nat := 2000000000000
 
@@ -84,7 +77,6 @@ def handle (op : String) (args : Array String) : Option String :=
           now.toNat?, unhex rd, localNames, parseTable tbl with
     | some m, some o, some d, some u, some content, some sn, some kid, some kidx, some urlParse,
       some now, some rd, some localNames, some (table, dbErr) =>
-      if !(content.map inJsonDomain).getD true then some "skip:content-outside-json-domain" else
       -- sender side
       let f0 := newRequest m o d u
       let f1 : Except SendErr Fields := match content with
@@ -112,13 +104,13 @@ def handle (op : String) (args : Array String) : Option String :=
         let txAuth := if txa == "=" then some produced.authorization else parseHexList txa
         match txMethod, txURI, txMedia, txBody, txAuth with
         | some txMethod, some txURI, some txMedia, some txBody, some txAuth =>
-          if !inJsonDomain txBody then some "skip:body-outside-json-domain" else
           let req : HttpReq := ⟨txMethod, txURI, txBody, txMedia, txAuth⟩
           let signedPayload := encodeCanon signedObj
           let sigOK (pk : Nat) (obj : JVal) (sig : Bytes) : Bool :=
             sig == sigPlaceholder && pk == kidx && encodeCanon obj == signedPayload
           let isLocal := localNames.map (fun names => fun (n : Bytes) => names.contains n)
-          let res := verifyHTTPRequest req now rd isLocal (keyRingVerifier table dbErr wallclock sigOK)
+          -- the receiver's JSONVerifier is a KeyRing: VerifyJSON = the gate of signing.go on the message, then the signature
+          let res := verifyWithKeyRing req now rd isLocal table dbErr wallclock sigOK
           let mOut := match res with
             | .ok r => showOk r.method r.uri r.origin r.destination r.content
             | .error e => showRefusal e
